@@ -197,7 +197,7 @@ def sl_cfg(threads, rounds, defects=()):
 
 # generated scenarios: the scenario sets of ConcCLMC (ScenSet = [Threads -> Progs], ScenSet1 = single calls, InitLen = 2) in the runner's syntax
 CC_OPS = ["a", "v", "p", "e", "f", "o1", "i1", "i2", "r1", "r2"]
-CC_PROGS = CC_OPS + [x + "," + y for x in ("a", "r1") for y in ("v", "r1", "i1")]
+CC_PROGS = CC_OPS + [x + "," + y for x in ("a", "r1") for y in ("v", "r1", "i1")] + ["a,a", "a,a,v", "p,a,f"]     # (the last three: harness only)
 
 
 def cc_generated(tier, seed, have):
@@ -241,6 +241,9 @@ def c03(tier, seed):
     # dispatcher only: calls on other events (each thread inserts its own new key into the shared map) racing calls on event 1
     for i, s in enumerate(["2:x,a|x,r1", "2:x,y,v|x,z,i1", "1:x,z|v,x|r1,x", "2:i1,x|x,y,r2"]):
         scen.append({"scenario": s, "bound": 2 if s.count("|") == 1 else 1, "max": 4000 if quick else 100000, "runner": 1 + i % 2})
+    # several additions racing each other and a traversal afterwards: the generation counter is drawn before the mutex is taken (seed S92)
+    for s in ["2:a|a|a", "0:a|a,a,v", "2:p|a,a|v", "1:a,v|a,a"]:
+        scen.append({"scenario": s, "bound": 2 if s.count("|") == 1 else 1, "max": 4000 if quick else 100000})
     scen += cc_generated(tier, seed, set(x["scenario"] for x in scen))
     # heterogeneous list / dispatcher only: first use of a prototype slot (and of an event) by several threads at once
     for s in ["0:a|a", "0:a,v|a,v", "0:a|v,e", "0:p|a,r20", "0:a|f", "0:a,r10|a|v", "0:i1|a|p", "1:a|r1,a"]:
